@@ -51,3 +51,43 @@ package lr1
 //@   loop 0 invariant forall i int :: {sh.Prods[i]} 0 <= i && i <= rangeindex ==> sh.Prods[i].Rule == sh.Prods[0].Rule && sh.Prods[i].Precedence == sh.Prods[0].Precedence
 //@   loop 0 invariant rangeindex == -1 ==> isnil(shiftRule) && shiftPrec == 0
 //@   loop 0 decreases len(shift.Prods) - rangeindex
+//
+// ---- terminal numbering (C19) -------------------------------------------------------
+//
+// Terminals are numbered densely in the order they are added; a fresh grammar holds
+// exactly EOF = 0 and ERROR = 1.
+//@ pure func denseTerminals(g *Grammar) bool = forall k int :: {g.Terminals[k]} 0 <= k && k < len(g.Terminals) ==> !isnil(g.Terminals[k]) && allocated(g.Terminals[k]) && g.Terminals[k].Index == k
+//
+//@ func Grammar.AddTerminal
+//@   requires !isnil(g) && denseTerminals(g)
+//@   ensures !isnil(result) && fresh(result) && result.Index == old(len(g.Terminals)) && result.Name == name
+//@   ensures len(g.Terminals) == old(len(g.Terminals)) + 1 && g.Terminals[old(len(g.Terminals))] == result
+//@   ensures forall k int :: {g.Terminals[k]} 0 <= k && k < old(len(g.Terminals)) ==> g.Terminals[k] == old(g.Terminals[k])
+//@   ensures denseTerminals(g)
+//@   ensures base(g.Terminals) == old(base(g.Terminals)) || fresh(g.Terminals)
+//@   ensures old(len(g.Terminals)) == old(cap(g.Terminals)) ==> fresh(g.Terminals)
+//@   ensures g.Rules == old(g.Rules) && g.Prods == old(g.Prods) && g.EOFTerminal == old(g.EOFTerminal) && g.ErrorTerminal == old(g.ErrorTerminal)
+//@   modifies g.Terminals, g.Terminals[len(g.Terminals)] if len(g.Terminals) < cap(g.Terminals)
+//
+//@ func Grammar.AddRule
+//@   requires !isnil(g)
+//@   ensures !isnil(result) && fresh(result) && result.Index == old(len(g.Rules)) && len(result.Prods) == 0 && cap(result.Prods) == 0
+//@   ensures g.Terminals == old(g.Terminals) && g.Prods == old(g.Prods) && g.EOFTerminal == old(g.EOFTerminal) && g.ErrorTerminal == old(g.ErrorTerminal)
+//@   ensures len(g.Rules) == old(len(g.Rules)) + 1
+//@   ensures (base(g.Rules) == old(base(g.Rules)) || fresh(g.Rules)) && (old(len(g.Rules)) == old(cap(g.Rules)) ==> fresh(g.Rules))
+//@   modifies g.Rules, g.Rules[len(g.Rules)] if len(g.Rules) < cap(g.Rules)
+//
+//@ func Grammar.AddProd
+//@   requires !isnil(g) && !isnil(rule)
+//@   ensures !isnil(result) && fresh(result) && result.Index == old(len(g.Prods)) && result.Rule == rule
+//@   ensures g.Terminals == old(g.Terminals) && g.Rules == old(g.Rules) && g.EOFTerminal == old(g.EOFTerminal) && g.ErrorTerminal == old(g.ErrorTerminal)
+//@   ensures len(g.Prods) == old(len(g.Prods)) + 1
+//@   ensures (base(g.Prods) == old(base(g.Prods)) || fresh(g.Prods)) && (old(len(g.Prods)) == old(cap(g.Prods)) ==> fresh(g.Prods))
+//@   ensures (base(rule.Prods) == old(base(rule.Prods)) || fresh(rule.Prods)) && (old(len(rule.Prods)) == old(cap(rule.Prods)) ==> fresh(rule.Prods))
+//@   modifies g.Prods, g.Prods[len(g.Prods)] if len(g.Prods) < cap(g.Prods), rule.Prods, rule.Prods[len(rule.Prods)] if len(rule.Prods) < cap(rule.Prods)
+//
+//@ func NewGrammar
+//@   ensures !isnil(result) && fresh(result) && len(result.Terminals) == 2 && denseTerminals(result)
+//@   ensures result.Terminals[0] == result.EOFTerminal && result.Terminals[1] == result.ErrorTerminal
+//@   ensures result.EOFTerminal.Index == 0 && result.ErrorTerminal.Index == 1
+//@   modifies nothing
